@@ -345,6 +345,24 @@ def run(repo: Repo, rep: Report, tier: str) -> None:
     else:
         rep.ok("C16-R11", "lower_identifier looks declared names up before parameters", first_tbl, li11.loc())
 
+    # ---------------- R12 --------------------------------------------------------------
+    rep.rule("C16-R12", "inside the body the iterator is the number of the iteration, for the analyzer as for the lowerer: the symbol the analyzer defines for it carries the "
+             "iteration's value (`IntValue(value=<the loop variable>)`), so a bound or step of a nested loop written with the outer iterator resolves as it does in the "
+             "unrolled program — a value-less int makes `for i in 1..3 { for j in 0..i { ... } }` end in an uncaught ValueError")
+    vf12 = repo.func("SemanticAnalyzer.visit_ForStmt")
+    loops12 = [n for n in walk_local(vf12.node) if isinstance(n, ast.For) and isinstance(n.target, ast.Name) and any(call_name(c) == "Symbol" for c in calls_in(n))]
+    if not loops12:
+        raise AnalysisError("C16-R12: the analyzer's per-iteration loop with the iterator symbol was not found")
+    for lp12 in loops12:
+        for c12 in calls_in(lp12, "Symbol"):
+            vt = kwarg(c12, "value_type")
+            if vt is None or not (isinstance(vt, ast.Call) and call_name(vt) == "IntValue"):
+                continue
+            val = kwarg(vt, "value") if vt.keywords else (vt.args[0] if vt.args else None)
+            ok12 = val is not None and isinstance(val, ast.Name) and val.id == lp12.target.id
+            rep.check(ok12, "C16-R12", "visit_ForStmt: the iterator symbol carries the iteration's value", f"IntValue(value={lp12.target.id})" if ok12 else
+                      f"`{norm(vt)}`: the analyzer knows the iterator as an int without a value; bounds of nested loops that mention it cannot be resolved", vf12.loc(c12))
+
     # ---------------- R5 ---------------------------------------------------------------
     rep.rule("C16-R5", "the transformer takes start and stop from the first and second bound, the step from the bound after STEP_KW "
              "(default 1), list values in source order, and passes them to ForStmt under the same names")
